@@ -3,6 +3,7 @@ package main
 import (
 	"fmt"
 	"go/ast"
+	"go/token"
 	"sort"
 	"strings"
 )
@@ -170,8 +171,48 @@ func genC09(e *emitter) {
 	fmt.Fprintf(&b, "def sealedGuardReadsUnderMutex : Bool := %s\n", leanBool(lockedGuard))
 	fmt.Fprintf(&b, "def signerWriters : List (List Char) := [%s]\n",
 		strings.Join(mapStr(signerWriters, func(s string) string { return leanStr(s) + ".toList" }), ", "))
+	// main(): what happens only after `<-runtimeState.SignerIsReady` (the unseal signal)
+	svcAfter, readyAfter, adminBefore, recvCount := false, false, false, 0
+	if mainFd := p.funcs["main"]; mainFd != nil && mainFd.Body != nil {
+		var recvPos token.Pos
+		ast.Inspect(mainFd.Body, func(n ast.Node) bool {
+			if u, ok := n.(*ast.UnaryExpr); ok && u.Op == token.ARROW && p.str(u.X) == "runtimeState.SignerIsReady" {
+				recvCount++
+				recvPos = u.Pos()
+			}
+			return true
+		})
+		if recvCount == 1 {
+			svc, rdy, adm := 0, 0, 0
+			svcOK, rdyOK, admOK := true, true, true
+			ast.Inspect(mainFd.Body, func(n ast.Node) bool {
+				ce, ok := n.(*ast.CallExpr)
+				if !ok {
+					return true
+				}
+				switch p.str(ce.Fun) {
+				case "serviceSrv.ListenAndServeTLS":
+					svc++
+					svcOK = svcOK && ce.Pos() > recvPos
+				case "healthserver.SetReady", "adminDashboard.setReady":
+					rdy++
+					rdyOK = rdyOK && ce.Pos() > recvPos
+				case "adminSrv.ListenAndServeTLS":
+					adm++
+					admOK = admOK && ce.Pos() < recvPos
+				}
+				return true
+			})
+			svcAfter, readyAfter, adminBefore = svc == 1 && svcOK, rdy == 2 && rdyOK, adm == 1 && admOK
+		}
+	}
+	b.WriteString("\n/-- main(): the service listener, and both readiness switches, come after the one receive from SignerIsReady;\nthe admin listener (which serves the injector) before it -/\n")
+	fmt.Fprintf(&b, "def mainServiceListensAfterUnseal : Bool := %s\n", leanBool(svcAfter))
+	fmt.Fprintf(&b, "def mainReadinessSetAfterUnseal : Bool := %s\n", leanBool(readyAfter))
+	fmt.Fprintf(&b, "def mainAdminListensBeforeUnseal : Bool := %s\n", leanBool(adminBefore))
 	b.WriteString("\nend KM.Gen\n")
 	e.lean("C09.lean", b.String())
 	e.facts["c09"] = map[string]interface{}{"routes": out, "unseal_locked": unsealLocked, "signer_last": signerLast,
-		"guard_locked": lockedGuard, "signer_writers": signerWriters}
+		"guard_locked": lockedGuard, "signer_writers": signerWriters,
+		"main_service_after_unseal": svcAfter, "main_readiness_after_unseal": readyAfter, "main_admin_before_unseal": adminBefore}
 }
